@@ -16,6 +16,7 @@ from .syntax import Syn
 INT_DTYPES = ["int8", "int16", "int32", "int64", "uint8"]
 FLOAT_DTYPES = ["float32", "float64"]
 ALL_DTYPES = ["bool"] + INT_DTYPES + FLOAT_DTYPES
+HUGE = 2 ** 40       # a slice bound far beyond any row end (and beyond the 32-bit index range)
 
 KINDS = ["sel", "sel", "sel", "alias", "rowget", "elem", "maskget", "ufunc1", "ufunc2", "pyop",
          "reduce", "colagg", "scan", "concat", "like", "where", "nonzero", "rslice", "padded",
@@ -98,7 +99,7 @@ def gen_rowsel(rng, n, P, unique=False):
             if r < 0.3:
                 return None
             if r < 0.3 + P["oob_bias"]:
-                return rng.choice([n + 1, n + 3, -n - 1, -n - 3])
+                return rng.choice([n + 1, n + 3, -n - 1, -n - 3, HUGE if rng.random() < 0.5 else -HUGE])
             return rng.randint(-n, n) if n else rng.choice([0, 1, -1])
         step = None
         r = rng.random()
@@ -106,6 +107,8 @@ def gen_rowsel(rng, n, P, unique=False):
             step = rng.choice([-1, -1, -2, -3])
         elif r < P["neg_step_bias"] + 0.25:
             step = rng.choice([1, 2, 2, 3])
+        if step is not None and P["oob_bias"] and rng.random() < 0.03:
+            step = HUGE if step > 0 else -HUGE
         a, b = bound(), bound()
         cls = "sl" + ("-" if (step or 1) < 0 else "+") + ("n" if abs(step or 1) > 1 else "1")
         return ["sl", a, b, step], cls
@@ -130,7 +133,7 @@ def gen_colslice(rng, maxlen, P):
         if r < 0.35:
             return None
         if r < 0.35 + P["oob_bias"]:
-            return rng.choice([maxlen + 1, maxlen + 4, -maxlen - 1, -maxlen - 4])
+            return rng.choice([maxlen + 1, maxlen + 4, -maxlen - 1, -maxlen - 4, HUGE if rng.random() < 0.5 else -HUGE])
         return rng.randint(-maxlen, maxlen) if maxlen else rng.choice([0, 1, -1])
     step = None
     r = rng.random()
@@ -138,6 +141,8 @@ def gen_colslice(rng, maxlen, P):
         step = rng.choice([-1, -1, -2, -3])
     elif r < P["neg_step_bias"] + 0.3:
         step = rng.choice([1, 2, 2, 3])
+    if step is not None and P["oob_bias"] and rng.random() < 0.03:
+        step = HUGE if step > 0 else -HUGE
     cls = "c" + ("-" if (step or 1) < 0 else "+") + ("n" if abs(step or 1) > 1 else "1")
     return ["sl", bound(), bound(), step], cls
 
